@@ -121,6 +121,8 @@ def build_cases(seed, n, want, nphases=4):
     cases = []
     for name, fn in SHAPES.items():
         proj = fn()
+        if proj.get("schedule_dependent"):
+            continue
         phases = [initial_phase(proj, cfg={"njob": 2, "resources": "gpu:2,tpu:1"}, seed=seed)]
         for path, vers in proj["sources"].items():
             if len(vers) > 1:
@@ -130,6 +132,14 @@ def build_cases(seed, n, want, nphases=4):
             if len(vers) > 1 and path.endswith(".py"):
                 phases.append({"edits": [["set", path, vers[0]]], "how": "restart", "cfg": {"njob": 2, "resources": "gpu:2,tpu:1"}, "seed": seed + 2})
         cases.append({"tid": f"shape-{name}", "project": proj, "phases": phases, "want": want, "seed": seed})
+        # all versioned non-script sources switched in one phase, under several schedules
+        both = [["set", p, v[1]] for p, v in proj["sources"].items() if len(v) > 1 and not p.endswith(".py")]
+        if len(both) > 0:
+            for k in range(4):
+                cfgk = {"njob": 1 + k % 3, "resources": "gpu:2,tpu:1"}
+                ph = [initial_phase(proj, cfg=cfgk, seed=seed * 10 + k),
+                      {"edits": both, "how": "restart", "cfg": cfgk, "seed": seed * 10 + k + 100, "policy": ["random", "lifo", "fifo", "random"][k]}]
+                cases.append({"tid": f"shape-{name}-all{k}", "project": proj, "phases": ph, "want": want, "seed": seed + k})
     for i in range(n):
         g = Gen(seed * 100003 + i)
         proj = g.project()
